@@ -148,13 +148,21 @@ static void check_hex(Case &c, const uint8_t *x, size_t n)
     hexdec_buf_fn db = p_hexdec_buf;
     if (ds && db)
     {
+        const std::string e2_before = e2;
         std::string d1 = ds(e2);
         VP_CHECK(d1 == xs, "hex_str_roundtrip", "string flavour decode(encode(x))=%s",
                  show(d1).c_str());
+        // the text handed to the decoder is the caller's (a const reference): it must read the same afterwards, and a
+        // second decode of the same object must give the same bytes
+        VP_CHECK(e2 == e2_before, "hex_str_argument_changed", "hexascii_decode(const std::string&) left its argument as %s, it was %s", show(e2).c_str(),
+                 show(e2_before).c_str());
+        std::string d1b = ds(e2);
+        VP_CHECK(d1b == xs, "hex_str_roundtrip", "string flavour: second decode of the same text gives %s", show(d1b).c_str());
         Exact eb(e1.data(), e1.size());
         std::string d2 = db(igris::buffer((const void *)eb.p, eb.n));
         VP_CHECK(d2 == xs, "hex_str_roundtrip", "buffer flavour decode(encode(x))=%s",
                  show(d2).c_str());
+        VP_CHECK(eb.n == e1.size() && memcmp(eb.p, e1.data(), eb.n) == 0, "hex_str_argument_changed", "hexascii_decode(const igris::buffer&) changed the text it was given");
     }
     else
     {
